@@ -176,6 +176,28 @@ def run(ctx) -> None:
             if not good:
                 ok, why = False, f"'{src(key)}' at line {n.lineno} is merged into the bound mapping without being one of the wrapper's inputs: an inner binding outside the wrapper's interface makes an unrelated outer input count as provided"
     rep.add("C08.R6", f"{cb.qname}:keys-are-wrapper-inputs", ok, cb.loc(), why)
+    check_inner_bound_merge_complete(ctx, "C08.R6")
+
+
+def check_inner_bound_merge_complete(ctx, rule: str) -> None:
+    """Every GraphNode's inherited bound values are merged: the merge is guarded by the node kind only."""
+    from .common import must_reach_in_iteration
+
+    db, rep = ctx.db, ctx.rep
+    cb = db.func("graph.input_spec._collect_bound_values")
+    cfg = ctx.cfg(cb)
+    outer = [n for n in cfg.nodes if n.kind == "for" and "nodes" in src(n.ast.iter) and enclosing(n.ast, (ast.For,)) is None]
+    inner = [n for n in cfg.nodes if n.kind == "for" and isinstance(n.ast.iter, ast.Attribute) and n.ast.iter.attr == "inputs"]
+    val = {}
+    for t in cfg.nodes:
+        if t.kind == "test" and t.ast is not None:
+            for c in ast.walk(t.ast):
+                if isinstance(c, ast.Call) and dotted(c.func) == "isinstance" and "GraphNode" in src(c):
+                    val[src(c)] = True
+    ok = bool(outer) and bool(inner) and bool(val) and must_reach_in_iteration(cfg, outer[0], inner, val)
+    # the inner bound mapping consulted is the inherited one (inputs.bound), not the wrapper graph's direct bindings
+    uses_spec = any(isinstance(n, ast.Attribute) and n.attr == "bound" and isinstance(n.value, ast.Attribute) and n.value.attr == "inputs" for n in walk_local(cb.node))
+    rep.add(rule, f"{cb.qname}:every-wrapper-merged", ok and uses_spec, cb.loc(), "for every nested-graph node the inherited bound values (inner inputs.bound) are merged — the only guard is the node kind" if ok and uses_spec else "inner bound values are merged only under an additional condition (or from the wrapper graph's direct bindings): bindings inherited from deeper nesting levels stop surfacing and a ready node finds no value")
 
 
 IS = "src/hypergraph/graph/input_spec.py"
